@@ -443,6 +443,8 @@ var tiers = map[string]map[string]tierSpec{
 		"C16":     {4000, 250, 150},
 		"C06":     {4800, 300, 150},
 		"C12":     {1280, 8, 150},
+		"C15":     {4000, 250, 150},
+		"C19":     {2400, 150, 150},
 	},
 	"thorough": {
 		"default": {200000, 400, 1200},
